@@ -53,6 +53,7 @@ type live struct {
 	msg      []byte
 	squeezed int
 	reading  bool
+	refOut   []byte // cached reference stream (valid while reading: the message is frozen)
 	// history facts
 	hist        uint64 // hash of the lineage's operation sequence
 	chunks      int
@@ -84,6 +85,9 @@ func (sp *Spec) edgeTotals() []int {
 	for k := 2; k <= 9; k++ {
 		e = append(e, k*8192-1, k*8192, k*8192+1)
 	}
+	if sp.Lanes == 4 {
+		e = append(e, 13*8192-1, 13*8192, 13*8192+1)
+	}
 	if sp.Tail > 0 {
 		n := len(e)
 		for i := 0; i < n; i++ {
@@ -106,6 +110,9 @@ func Run(t *rapid.T, sp Spec) {
 	}
 	if sp.MaxMsg == 0 {
 		sp.MaxMsg = 9*8192 + 2
+		if sp.Lanes == 4 {
+			sp.MaxMsg = 13*8192 + 2 // first chunk + three full 4-lane buffers
+		}
 	}
 	pool := make([]byte, sp.MaxMsg+64)
 	switch rapid.IntRange(0, 9).Draw(t, "poolkind") {
@@ -118,7 +125,7 @@ func Run(t *rapid.T, sp Spec) {
 		vlib.FillRandom(t, pool, "pool")
 	}
 	edges := sp.edgeTotals()
-	vlib.Eval(sp.Sub)
+	vlib.Class(sp.Sub, "histories")
 	abandoned := false
 	lives := []*live{{in: sp.New()}}
 	pick := func(t *rapid.T, pred func(*live) bool) *live {
@@ -154,6 +161,7 @@ func Run(t *rapid.T, sp Spec) {
 		}
 		first := !l.reading
 		l.reading = true
+		vlib.Eval(sp.Sub) // one evaluation = one output slice (or Sum) compared with the reference
 		if got != n || err != nil {
 			abandoned = true
 			sp.fail(t, "read-return", fmt.Sprintf("Read(%d bytes) returned (%d, %v)", n, got, err))
@@ -166,7 +174,14 @@ func Run(t *rapid.T, sp Spec) {
 				return
 			}
 		}
-		want := sp.Ref(l.msg, l.squeezed+n)[l.squeezed:]
+		if first || len(l.refOut) < l.squeezed+n {
+			if sp.MaxOut > 0 {
+				l.refOut = sp.Ref(l.msg, sp.MaxOut)
+			} else {
+				l.refOut = sp.Ref(l.msg, l.squeezed+n+400)
+			}
+		}
+		want := l.refOut[l.squeezed : l.squeezed+n]
 		if !bytes.Equal(buf[8:8+n], want) {
 			abandoned = true
 			cls := "stream"
@@ -217,8 +232,10 @@ func Run(t *rapid.T, sp Spec) {
 		l.hist = mix(l.hist, []byte("R"), itob(n))
 		if (l.chunks >= 2 && l.straddle) || l.cloneOrRst {
 			cls := "nt:multi-chunk-straddling"
-			if l.cloneOrRst {
-				cls = "nt:clone-or-reset-in-lineage"
+			if !(l.chunks >= 2 && l.straddle) {
+				cls = "nt:clone-or-reset-only"
+			} else if l.cloneOrRst {
+				cls = "nt:multi-chunk-straddling+clone-or-reset"
 			}
 			var hb [8]byte
 			for i := 0; i < 8; i++ {
@@ -229,6 +246,32 @@ func Run(t *rapid.T, sp Spec) {
 				vlib.Sample(sp.Sub, cls, fmt.Sprintf("%s: %d-byte message in %d write chunks, clone/reset in lineage=%v, then Read(%d) = %s", sp.Sub, len(l.msg), l.chunks, l.cloneOrRst, n, vlib.Hex(want)))
 			}
 		}
+	}
+	doReset := func(t *rapid.T, l *live) bool {
+		if !call(t, "Reset", l, func() { l.in.Reset() }) {
+			return false
+		}
+		switch {
+		case l.reading && l.squeezed%sp.Rate != 0:
+			vlib.Class(sp.Sub, "reset:squeezing-mid-block")
+		case l.reading:
+			vlib.Class(sp.Sub, "reset:squeezing")
+		case len(l.msg) > 8192:
+			vlib.Class(sp.Sub, "reset:absorbing,>8192")
+		case len(l.msg)%sp.Rate != 0:
+			vlib.Class(sp.Sub, "reset:absorbing-partial-block")
+		default:
+			vlib.Class(sp.Sub, "reset:absorbing-empty-buffer")
+		}
+		l.msg = nil
+		l.squeezed = 0
+		l.reading = false
+		l.refOut = nil
+		l.chunks = 0
+		l.straddle = false
+		l.cloneOrRst = true
+		l.hist = mix(l.hist, []byte("Z"))
+		return true
 	}
 	readLens := []int{0, 1, sp.Rate - 1, sp.Rate, sp.Rate + 1, 2*sp.Rate + 3, 10000}
 	drawReadLen := func(t *rapid.T, l *live) int {
@@ -250,19 +293,27 @@ func Run(t *rapid.T, sp Spec) {
 	actions := map[string]func(*rapid.T){
 		"write": func(t *rapid.T) {
 			if abandoned {
-				t.Skip()
+				return
 			}
 			l := pick(t, func(l *live) bool { return !l.reading })
 			if l == nil {
-				t.Skip()
+				// every live object is squeezing (Write after Read is documented to panic): Reset one, then write
+				l = pick(t, nil)
+				if !doReset(t, l) {
+					return
+				}
 			}
 			L := len(l.msg)
 			room := sp.MaxMsg - L
 			var n int
 			kind := rapid.IntRange(0, 999).Draw(t, "wkind")
+			huge := sp.Big / 2
+			if L >= 8192 && (L-8192)%(sp.Lanes*8192) == 0 && sp.Big >= 200 {
+				huge = 250 // the leaf buffer is empty: make the direct multi-lane path likely
+			}
 			switch {
-			case kind < sp.Big || (kind < 300 && kind >= 150):
-				// jump exactly to one of the named total lengths
+			case kind < sp.Big || (kind >= 500 && kind < 650):
+				// jump exactly to one of the named total lengths (far: any of them; near: within four blocks)
 				var c []int
 				for _, e := range edges {
 					if e > L && e <= sp.MaxMsg && (kind < sp.Big || e <= 4*sp.Rate+L) {
@@ -274,12 +325,19 @@ func Run(t *rapid.T, sp Spec) {
 				} else {
 					n = rapid.SampledFrom(c).Draw(t, "target") - L
 				}
-			case kind < 400:
-				n = rapid.SampledFrom([]int{sp.Rate, 2 * sp.Rate, sp.Rate - 1, sp.Rate + 1, 8192, sp.Lanes * 8192, 2 * sp.Lanes * 8192, sp.Lanes*8192 + 1, sp.Lanes*8192 - 1}).Draw(t, "wlen")
-				if n > 8*sp.Rate && kind >= 300+sp.Big/4 {
-					n = sp.Rate
+			case kind < sp.Big+huge:
+				// one or two full leaf buffers (lanes*8192), exactly or off by one / by a block
+				j := rapid.IntRange(1, 2).Draw(t, "nbuf")
+				d := rapid.SampledFrom([]int{0, 0, 0, -1, 1, sp.Rate, 8192}).Draw(t, "delta")
+				n = j*sp.Lanes*8192 + d
+				if L == 0 && rapid.Bool().Draw(t, "withfirst") {
+					n += 8192
 				}
-			case kind < 480:
+			case kind < 500:
+				n = rapid.IntRange(1, 2*sp.Rate+3).Draw(t, "wlen")
+			case kind < 750:
+				n = rapid.SampledFrom([]int{sp.Rate, 2 * sp.Rate, sp.Rate - 1, sp.Rate + 1, 3 * sp.Rate}).Draw(t, "wlen")
+			case kind < 800:
 				n = 0
 			case kind < 960:
 				n = rapid.IntRange(1, 2*sp.Rate+3).Draw(t, "wlen")
@@ -349,6 +407,28 @@ func Run(t *rapid.T, sp Spec) {
 				if end == 8192 {
 					vlib.Class(sp.Sub, "write:ends-at-8192")
 				}
+				// does part of this chunk take the direct multi-lane path (≥ lanes*8192 bytes left once the
+				// first 8192-byte chunk and a partially filled leaf buffer have been served)?
+				if sp.Lanes > 1 {
+					rem, pos := n, 0
+					if L < 8192 {
+						rem -= min(rem, 8192-L)
+					} else {
+						pos = (L - 8192) % (sp.Lanes * 8192)
+					}
+					if pos != 0 {
+						rem -= min(rem, sp.Lanes*8192-pos)
+					}
+					if rem >= sp.Lanes*8192 {
+						vlib.Class(sp.Sub, "write:direct-multilane-path")
+						if pos != 0 {
+							vlib.Class(sp.Sub, "write:fills-buffer-then-direct-multilane-path")
+						}
+						if rem%(sp.Lanes*8192) == 0 {
+							vlib.Class(sp.Sub, "write:direct-multilane-path,no-remainder")
+						}
+					}
+				}
 			}
 			l.msg = append(l.msg, data...)
 			l.chunks++
@@ -356,14 +436,17 @@ func Run(t *rapid.T, sp Spec) {
 		},
 		"read": func(t *rapid.T) {
 			if abandoned {
-				t.Skip()
+				return
 			}
 			l := pick(t, nil)
 			n := drawReadLen(t, l)
 			doRead(t, l, n, "Read")
 		},
 		"clone": func(t *rapid.T) {
-			if abandoned || len(lives) >= 4 {
+			if abandoned {
+				return
+			}
+			if len(lives) >= 4 {
 				t.Skip()
 			}
 			l := pick(t, nil)
@@ -383,36 +466,15 @@ func Run(t *rapid.T, sp Spec) {
 			nl := *l
 			nl.in = c
 			nl.msg = append([]byte{}, l.msg...)
+			nl.refOut = append([]byte{}, l.refOut...)
 			nl.hist = mix(l.hist, []byte("child"))
 			lives = append(lives, &nl)
 		},
 		"reset": func(t *rapid.T) {
 			if abandoned {
-				t.Skip()
-			}
-			l := pick(t, nil)
-			if !call(t, "Reset", l, func() { l.in.Reset() }) {
 				return
 			}
-			switch {
-			case l.reading && l.squeezed%sp.Rate != 0:
-				vlib.Class(sp.Sub, "reset:squeezing-mid-block")
-			case l.reading:
-				vlib.Class(sp.Sub, "reset:squeezing")
-			case len(l.msg) > 8192:
-				vlib.Class(sp.Sub, "reset:absorbing,>8192")
-			case len(l.msg)%sp.Rate != 0:
-				vlib.Class(sp.Sub, "reset:absorbing-partial-block")
-			default:
-				vlib.Class(sp.Sub, "reset:absorbing-empty-buffer")
-			}
-			l.msg = nil
-			l.squeezed = 0
-			l.reading = false
-			l.chunks = 0
-			l.straddle = false
-			l.cloneOrRst = true
-			l.hist = mix(l.hist, []byte("Z"))
+			doReset(t, pick(t, nil))
 		},
 		"": func(t *rapid.T) {
 			if abandoned || sp.Invariant == nil {
@@ -430,7 +492,7 @@ func Run(t *rapid.T, sp Spec) {
 	if sp.SumLen > 0 {
 		actions["sum"] = func(t *rapid.T) {
 			if abandoned {
-				t.Skip()
+				return
 			}
 			l := pick(t, func(l *live) bool { return !l.reading })
 			if l == nil {
@@ -446,6 +508,7 @@ func Run(t *rapid.T, sp Spec) {
 			if !call(t, "Sum", l, func() { got = l.in.(Summer).Sum(prefix) }) {
 				return
 			}
+			vlib.Eval(sp.Sub)
 			want := append(append([]byte{}, prefix...), sp.Ref(l.msg, sp.SumLen)...)
 			if !bytes.Equal(got, want) {
 				abandoned = true
@@ -463,6 +526,11 @@ func Run(t *rapid.T, sp Spec) {
 			}
 		}
 	}
+	// rapid draws actions uniformly: weight them by registering aliases (write 6, read 3, clone 1, reset 1, sum 1)
+	for _, k := range []string{"write2", "write3", "write4", "write5", "write6"} {
+		actions[k] = actions["write"]
+	}
+	actions["read2"], actions["read3"] = actions["read"], actions["read"]
 	t.Repeat(actions)
 	if abandoned {
 		return
